@@ -146,6 +146,27 @@ def generate(rng, tier):
         cases.append({"stream": "magic-middleware", "input": inp})
     for inp in mg.gen_middleware_random(rng, 1500 if tier == "quick" else 20000, FIRST, GLUE):
         cases.append({"stream": "magic-middleware", "input": inp})
+    # ---- RUNS of backslashes (2, 3, 4, 5) before every significant character: the splitter pairs escapes from left to right
+    # (the second backslash of `\\\\` IS the escaped character), a one-character look-behind does not (seeding round 11: a
+    # `pairwise` rewrite treated whatever follows a run of backslashes as escaped).  Every sequence of length <= 4 over
+    # {Ab, and, blank, { , }} with one run inserted at every position; appended last.
+    import itertools
+    base = ["Ab", "and", " ", "{", "}"]
+    maxlen = 4 if tier == "quick" else 5
+    for n in range(1, maxlen + 1):
+        for seq in itertools.product(base, repeat=n):
+            if "and" not in seq and n > 2:
+                continue
+            for i in range(n + 1):
+                for run in (2, 3, 4, 5) if (tier != "quick" or n <= 3) else (2, 3):
+                    t = "".join(seq[:i]) + "\\" * run + "".join(seq[i:])
+                    if t not in seen:
+                        seen.add(t)
+                        cases.append({"stream": "backslash-runs", "input": {"level": "fn", "s": t}})
+    for t in ["A. Miller\\\\ and B. Jones", "Jane Roe and \\\\{Royal Society and Friends}", "{Dept.\\ of Mathematics\\\\} and Jane Roe",
+              "Ab\\\\\\ and Cd", "Ab \\\\and Cd", "Ab and\\\\ Cd"]:
+        cases.append({"stream": "backslash-runs", "input": {"level": "fn", "s": t}})
+        cases.append({"stream": "backslash-runs", "input": {"level": "mw", "fields": [["author", t]], "mws": [0, 1, 0], "nf": None}})
     return cases
 
 
